@@ -212,6 +212,22 @@ def run_property(mod, tier, seed):
         else:
             ctx.obligation("theorems:" + pf, False, "file missing")
 
+    # 4b. corpus: minimised past failures / recorded findings are replayed first
+    import glob as _g, io as _io, contextlib as _cl
+    rp = getattr(mod, "replay", None)
+    if rp is not None:
+        for cf in sorted(_g.glob(os.path.join(VERIF, "corpus", prop + "-*.json"))):
+            try:
+                cd = json.load(open(cf))
+                buf = _io.StringIO()
+                with _cl.redirect_stdout(buf):
+                    still = rp(ctx, cd)
+                ctx.case({"corpus": os.path.basename(cf)}, nontrivial=True, bucket="corpus")
+                if still:
+                    ctx.counterexample(cd.get("signature", "corpus:" + os.path.basename(cf)), cd.get("what", "corpus case %s still fails" % os.path.basename(cf)), cd.get("data"))
+            except Exception as e:
+                ctx.obligation("corpus:" + os.path.basename(cf), False, "%s\n%s" % (e, traceback.format_exc()[-1500:]))
+
     # 5. correspondence, 6. search
     for phase in ("correspondence", "search"):
         fn = getattr(mod, phase, None)
@@ -248,8 +264,12 @@ def finish(ctx, mod, level):
     os.makedirs(EVIDENCE, exist_ok=True)
 
     def match(issue):
+        import re as _re
         for k in known:
-            if k["signature"] == issue.signature:
+            if k.get("signature") == issue.signature:
+                return k
+            rx = k.get("signature_regex")
+            if rx and _re.fullmatch(rx, issue.signature):
                 return k
         return None
 
@@ -258,7 +278,7 @@ def finish(ctx, mod, level):
     for iss in ctx.issues:
         k = match(iss)
         if k is not None:
-            known_hit.setdefault(k["signature"], (k, iss))
+            known_hit.setdefault(k.get("signature") or k.get("signature_regex"), (k, iss))
         else:
             fresh.append(iss)
 
